@@ -281,6 +281,41 @@ SAME_N_GROUPS = [
 ]
 
 
+def _forked_worker(seed_unused):
+    """In a worker forked from the harness: a simulation built the way an input
+    file builds it (no generator passed), 12 trials; one number per drawn error."""
+    import zlib as _z
+    from panqec.codes import Toric2DCode
+    from panqec.decoders import MatchingDecoder
+    from panqec.simulation import DirectSimulation
+    import panqec.simulation._direct_simulation as DS
+    code = Toric2DCode(4, 4)
+    em = PauliErrorModel(1 / 3, 1 / 3, 1 / 3)
+    drawn = []
+    real = DS.run_once
+
+    def spy(*a, **k):
+        out = real(*a, **k)
+        drawn.append(_z.crc32(np.asarray(out['error']).tobytes()) % 1000003)
+        return out
+    DS.run_once = spy
+    try:
+        sim = DirectSimulation(code, em, MatchingDecoder(code, em, 0.3), 0.3, verbose=False)
+        sim.run(12)
+    finally:
+        DS.run_once = real
+    return drawn
+
+
+def forked_records():
+    # the parent has numpy's global generator initialised (as any process that has
+    # imported the library has); four workers are forked from it
+    np.random.seed(12345)
+    np.random.random()
+    seqs = common.pmap(_forked_worker, [0, 1, 2, 3], procs=4)
+    return [{'forked': [list(s) for s in seqs], '_label': 'four forked workers, no generator passed', '_cost': 1}]
+
+
 @common.safe
 def shared_model(item):
     """ONE noise model object used on several codes with the same number of
@@ -366,6 +401,7 @@ def run(tier):
             recs += x
         else:
             recs += common.split_raised('C07', v, [x])
+    recs += forked_records()
     for j, r in enumerate(recs):
         r['id'] = j
     rejects, st = common.eval_records('C07_Data', recs, 'c07', shards=16,
@@ -375,9 +411,10 @@ def run(tier):
             cl = sorted(rejects[r['id']])
             v.reject('C07:' + ','.join(cl) + ':' + r['_label'].split(' ')[0].split('(')[0],
                      {'case': r['_label'], 'failed': cl,
-                      'tables_qubit0': r['tables'][0], 'D_qubit0': r['D'][0]})
+                      'tables_qubit0': r.get('tables', [None])[0], 'D_qubit0': r.get('D', [None])[0],
+                      'forked': r.get('forked')})
     rc = v.finish()
-    n_var = sum(len(r['fast']) + sum(len(s['js']) for s in r['samples']) for r in recs)
+    n_var = sum(len(r.get('fast', [])) + sum(len(s['js']) for s in r.get('samples', [])) for r in recs)
     common.write_evidence(
         'C07', tier, 'model_checking',
         {
@@ -388,7 +425,7 @@ def run(tier):
                          'first_sample': (r['samples'][0] if r['samples'] else None)}
                         for r in recs[::max(1, len(recs) // 5)][:6]],
             'evaluations': n_var,
-            'distinct_nontrivial': len({(r['_label']) for r in recs if 0 < r['pn']}),
+            'distinct_nontrivial': len({(r['_label']) for r in recs if 0 < r.get('pn', 1)}),
             'rule': f'grid Den = {den}: every direction of the simplex (faces '
                     'and vertices) x every rate pn/Den x codes x noise '
                     'deformation names/axes; per grid point every midpoint '
